@@ -1212,16 +1212,29 @@ class EqSimplifyMacro(Macro):
             raise VeriTException("eq_simplify", "goal must be an equality")
         lhs, rhs = arg.lhs, arg.rhs
 
+        def distinct_constants(s, t):
+            # s and t are numeric constants with different values
+            if not (s.is_constant() and t.is_constant()):
+                return False
+            T = s.get_type()
+            if T == hol_type.IntType:
+                return integer.int_eval(s) != integer.int_eval(t)
+            elif T == hol_type.RealType:
+                return real.real_eval(s) != real.real_eval(t)
+            else:
+                return False
+
         if lhs.is_equals():
             if lhs.lhs == lhs.rhs and rhs == true:
                 return Thm(arg)
-            elif lhs.lhs != lhs.rhs and rhs == false:
+            elif distinct_constants(lhs.lhs, lhs.rhs) and rhs == false:
                 return Thm(arg)
             else:
                 raise VeriTException("eq_simplify", "rhs doesn't obey eq_simplify rule")
         elif lhs.is_not():
-            if not lhs.arg.is_equals() or lhs.arg.lhs == lhs.arg.rhs:
-                raise VeriTException("eq_simplify", "lhs should be an inequality.")
+            # ~(t = t) <--> false
+            if not lhs.arg.is_equals() or lhs.arg.lhs != lhs.arg.rhs:
+                raise VeriTException("eq_simplify", "lhs should be the negation of t = t.")
             if rhs == false:
                 return Thm(arg)
             else:
